@@ -9,5 +9,7 @@ import TemporalModel.Props.C07
 import TemporalModel.Props.C08
 import TemporalModel.Props.C09
 import TemporalModel.Props.C10
+import TemporalModel.Props.C13
+import TemporalModel.Props.C14
 import TemporalModel.Props.C17
 import TemporalModel.Props.C18
